@@ -752,7 +752,7 @@ class Server():
             if ca not in self.reqs:  # point requestant.msg to incomer.rxbs
                 self.reqs[ca] = Requestant(msg=ix.rxbs, remoter=ix)
 
-            if ix.tymeout > 0.0 and ix.tymer.expired:
+            if ix.tymeout > 0.0 and ix.tymth and ix.tymer.expired:
                 self.closeConnection(ca)
 
 
@@ -1192,7 +1192,7 @@ class BareServer():
             if ca not in self.stewards:
                 self.stewards[ca] = Steward(remoter=ix, dictable=self.dictable)
 
-            if ix.tymeout > 0.0 and ix.tymer.expired:
+            if ix.tymeout > 0.0 and ix.tymth and ix.tymer.expired:
                 self.closeConnection(ca)
 
 
